@@ -116,6 +116,11 @@ func (pres *Presence) UnmarshalXML(d *xml.Decoder, start xml.StartElement) error
 					return err
 				}
 				pres.Extensions = append(pres.Extensions, presExt)
+			} else if tt.Name.Space != start.Name.Space {
+				// Unknown extension of another namespace, even if it is named like a standard child
+				if err = d.Skip(); err != nil {
+					return err
+				}
 			} else {
 				// Decode standard message sub-elements
 				var err error
